@@ -2,15 +2,16 @@
 # run_seeded.sh [tier] [id...] : apply every seeded change under /verif/seeded (or the given ones) to a scratch
 # copy of /repo in turn, run the check of the property it breaks against that copy (quick by default), and say
 # whether the check raised an alarm.  /repo itself, evidence/ and replays/ are not touched.
+VROOT="$(cd "$(dirname "${BASH_SOURCE[0]}")/.." && pwd)"   # the verification root this script belongs to (a snapshot runs its own copy)
 tier="${1:-quick}"; shift
-ids=("$@"); [ ${#ids[@]} -eq 0 ] && ids=($(ls /verif/seeded | grep -E '^C[0-9]+-'))
+ids=("$@"); [ ${#ids[@]} -eq 0 ] && ids=($(ls "$VROOT/seeded" | grep -E '^C[0-9]+-'))
 for id in "${ids[@]}"; do
-  d="/verif/seeded/$id"; prop="$(jq -r .property "$d/meta.json")"
+  d="$VROOT/seeded/$id"; prop="$(jq -r .property "$d/meta.json")"
   if jq -e .obsolete "$d/meta.json" >/dev/null; then echo "$id: obsolete (see meta.json), skipped"; continue; fi
-  alt="$(/verif/tools/altrepo.sh)"
+  alt="$($VROOT/tools/altrepo.sh)"
   git -C "$alt" apply "$d/patch.diff" || { echo "$id: patch does not apply"; continue; }
-  out="$(cd /verif && VERIF_REPO="$alt" ./vcheck "$prop" "$tier" 2>&1)"; rc=$?
+  out="$(cd "$VROOT" && VERIF_REPO="$alt" ./vcheck "$prop" "$tier" 2>&1)"; rc=$?
   classes="$(echo "$out" | grep -aE '^  class:' | sed 's/  class: //' | sort -u | tr '\n' ';' | cut -c1-200)"
   if [ $rc -eq 1 ]; then echo "$id ($prop $tier): CAUGHT  $classes"; else echo "$id ($prop $tier): MISSED (exit $rc)"; mkdir -p "${VERIF_ROOT_OUT:-/tmp/seed}/missed"; echo "$out" | tail -n 60 > "${VERIF_ROOT_OUT:-/tmp/seed}/missed/$id.log"; fi
 done
-/verif/tools/altrepo.sh >/dev/null
+$VROOT/tools/altrepo.sh >/dev/null
